@@ -249,45 +249,54 @@ impl ConnectionRpcChannel {
     fn handle_notification(&self, server: &mut VHDLServer, notification: lsp_server::Notification) {
         fn extract<N>(
             notification: lsp_server::Notification,
-        ) -> Result<N::Params, lsp_server::Notification>
+        ) -> Result<Option<N::Params>, lsp_server::Notification>
         where
             N: notification::Notification,
             N::Params: serde::de::DeserializeOwned,
         {
-            notification.extract(N::METHOD).map_err(|e| match e {
-                ExtractError::MethodMismatch(n) => n,
-                err @ ExtractError::JsonError { .. } => {
-                    panic!("{err:?}");
+            match notification.extract(N::METHOD) {
+                Ok(params) => Ok(Some(params)),
+                Err(ExtractError::MethodMismatch(n)) => Err(n),
+                Err(err @ ExtractError::JsonError { .. }) => {
+                    // A notification cannot be answered; the server must survive it
+                    error!("Ignoring notification with invalid parameters: {err:?}");
+                    Ok(None)
                 }
-            })
+            }
         }
 
         trace!("Handling notification: {notification:?}");
         // textDocument/didChange
         let notification = match extract::<notification::DidChangeTextDocument>(notification) {
-            Ok(params) => return server.text_document_did_change_notification(&params),
+            Ok(Some(params)) => return server.text_document_did_change_notification(&params),
+            Ok(None) => return,
             Err(notification) => notification,
         };
         // textDocument/didOpen
         let notification = match extract::<notification::DidOpenTextDocument>(notification) {
-            Ok(params) => return server.text_document_did_open_notification(&params),
+            Ok(Some(params)) => return server.text_document_did_open_notification(&params),
+            Ok(None) => return,
             Err(notification) => notification,
         };
         // workspace.didChangeWatchedFiles
         let notification = match extract::<notification::DidChangeWatchedFiles>(notification) {
-            Ok(params) => return server.workspace_did_change_watched_files(&params),
+            Ok(Some(params)) => return server.workspace_did_change_watched_files(&params),
+            Ok(None) => return,
             Err(notification) => notification,
         };
         let notification = match extract::<notification::DidCreateFiles>(notification) {
-            Ok(params) => return server.workspace_did_create_files(&params),
+            Ok(Some(params)) => return server.workspace_did_create_files(&params),
+            Ok(None) => return,
             Err(notification) => notification,
         };
         let notification = match extract::<notification::DidRenameFiles>(notification) {
-            Ok(params) => return server.workspace_did_rename_files(&params),
+            Ok(Some(params)) => return server.workspace_did_rename_files(&params),
+            Ok(None) => return,
             Err(notification) => notification,
         };
         let notification = match extract::<notification::DidDeleteFiles>(notification) {
-            Ok(params) => return server.workspace_did_delete_files(&params),
+            Ok(Some(params)) => return server.workspace_did_delete_files(&params),
+            Ok(None) => return,
             Err(notification) => notification,
         };
 
